@@ -9,7 +9,7 @@ request `["case", nodes, table, scc, topo, cond]`
   scc   : `null` or the component lists returned by the implementation
   topo  : `null`, `[0]` (INFEASIBLE) or `[1, order]`
   cond  : `null` or `[comps, cadj]` (`cadj[i]` = indices of the successors of component `i`)
-reply `[closed, mScc, mTopo|null, mCadj, certModel, sccV, topoV, condV]`
+reply `[closed, mScc, mTopo|null, mCadj, certModel, sccV, topoV, condV, universeClosed]`
   closed    : every neighbour of a node is in the node list
   mScc/mTopo/mCadj : the mirrors `tarjan`, `kahn` (null = INFEASIBLE), `condEdges`
   certModel : `[chkScc VB adj mScc, kahn verdict checked, chkCondense VB adj mScc mCadj,
@@ -19,6 +19,8 @@ reply `[closed, mScc, mTopo|null, mCadj, certModel, sccV, topoV, condV]`
               common to both
   topoV     : `null` or `[A, B, open]` (`chkTopo`, or `cyclicB` when INFEASIBLE was returned)
   condV     : `null` or `[A, B, open]`
+  universeClosed : the universe `U` built from the request is closed under `adj` and contains the
+              node list (the hypotheses of `chkSccOpen_correct` etc.); never used for a verdict
 -/
 namespace Solvor.Graph
 open Solvor.Proto
@@ -68,7 +70,11 @@ def handle (line : String) : String :=
       (Val.arr [Val.bool closed, Val.ofNatss mScc, Val.ofOpt Val.ofNats mTopo, Val.ofNatss mCadj,
         Val.arr [Val.bool (chkScc VB adj mScc), Val.bool certTopo, Val.bool (chkCondense VB adj mScc mCadj),
           Val.bool (chkCondOpen U nodes adj mScc mCadj)],
-        sccV, topoV, condV]).render
+        sccV, topoV, condV,
+        -- hypothesis `Closed U adj` of the `chk…Open_correct` theorems, reported separately so the
+        -- harness can refuse to run (infrastructure failure) if the universe were ever built wrongly;
+        -- it takes no part in any verdict and does not affect `closed` above
+        Val.bool (closedB U adj && nodes.all fun v => U.contains v)]).render
     | _, _ => err "bad arguments"
   | _ => err "bad request"
 
